@@ -43,6 +43,94 @@ func c08Skeleton(rel string, fd *ast.FuncDecl) []string {
 	return res
 }
 
+// c08Statements: EVERY statement of a function body in source order, compound statements
+// reduced to their header (`if init; cond`, `for k, v := range x`, `for init; cond; post`,
+// `switch tag`), blocks and case clauses descended into. Nothing is skipped, so any new
+// condition, variable, map or early exit changes the list.
+func c08Statements(rel string, fd *ast.FuncDecl) []string {
+	var res []string
+	var walk func(s ast.Stmt)
+	walkList := func(l []ast.Stmt) {
+		for _, s := range l {
+			walk(s)
+		}
+	}
+	walk = func(s ast.Stmt) {
+		switch v := s.(type) {
+		case nil:
+		case *ast.BlockStmt:
+			walkList(v.List)
+		case *ast.IfStmt:
+			h := ""
+			if v.Init != nil {
+				h = c08Src(rel, v.Init) + "; "
+			}
+			res = append(res, "if "+h+c08Src(rel, v.Cond))
+			walk(v.Body)
+			if v.Else != nil {
+				res = append(res, "else")
+				walk(v.Else)
+			}
+		case *ast.RangeStmt:
+			h := "for "
+			if v.Key != nil {
+				h += c08Src(rel, v.Key)
+				if v.Value != nil {
+					h += ", " + c08Src(rel, v.Value)
+				}
+				h += " " + v.Tok.String() + " "
+			}
+			res = append(res, h+"range "+c08Src(rel, v.X))
+			walk(v.Body)
+		case *ast.ForStmt:
+			h := "for "
+			if v.Init != nil {
+				h += c08Src(rel, v.Init)
+			}
+			h += "; "
+			if v.Cond != nil {
+				h += c08Src(rel, v.Cond)
+			}
+			h += "; "
+			if v.Post != nil {
+				h += c08Src(rel, v.Post)
+			}
+			res = append(res, h)
+			walk(v.Body)
+		case *ast.SwitchStmt:
+			h := "switch "
+			if v.Init != nil {
+				h += c08Src(rel, v.Init) + "; "
+			}
+			if v.Tag != nil {
+				h += c08Src(rel, v.Tag)
+			}
+			res = append(res, h)
+			walk(v.Body)
+		case *ast.CaseClause:
+			h := "default"
+			if v.List != nil {
+				var xs []string
+				for _, e := range v.List {
+					xs = append(xs, c08Src(rel, e))
+				}
+				h = "case " + strings.Join(xs, ", ")
+			}
+			res = append(res, h)
+			walkList(v.Body)
+		case *ast.LabeledStmt:
+			res = append(res, v.Label.Name+":")
+			walk(v.Stmt)
+		default:
+			// assignments, declarations, returns, inc/dec, expression statements, go, defer,
+			// branch, type switches, selects: printed whole
+			res = append(res, c08Src(rel, v))
+		}
+	}
+	walk(fd.Body)
+	return res
+}
+
 func factsC08() {
 	// ---- C08
 	svc := "pkg/controller/services/cache.go"
@@ -62,6 +150,13 @@ func factsC08() {
 	addStrList("c08IsValidClassSkeleton", ic, "services/cache.go IsValidIngressClass")
 	gc := c08Skeleton(svc, methodDecl(svc, "c", "GetIngressClass"))
 	addStrList("c08GetIngressClassSkeleton", gc, "services/cache.go GetIngressClass: returns &class together with the error")
+
+	// the two readers: every statement (GetIngressList must call c.IsValidIngress on every listed
+	// item, with no other condition and no state kept between two items)
+	addStrList("c08GetIngressListSkeleton", c08Statements(svc, methodDecl(svc, "c", "GetIngressList")),
+		"services/cache.go GetIngressList: every statement in source order (compound statements by their header)")
+	addStrList("c08GetIngressSkeleton", c08Statements(svc, methodDecl(svc, "c", "GetIngress")),
+		"services/cache.go GetIngress: every statement in source order")
 
 	// config.go: controllerName := "<literal>"
 	cfg := "pkg/controller/config/config.go"
